@@ -183,8 +183,6 @@ def float_tag(s):
     two = s["lk"] != "none" and s["uk"] != "none"
     if s["overflow"]:
         return "arb_float_overflow"
-    if two and (s["lk"] == "greater" or s["uk"] == "less"):
-        return "arb_float_two_sided_exclusive"
     if s["absorbed"] and (s["lk"] == "greater" or s["uk"] == "less"):
         return "arb_float_delta_absorbed"
     return ""
